@@ -1,4 +1,4 @@
-import TexelVerif.Conc.StepG6
+import TexelVerif.Conc.QuitProgress
 /-! # C10 — search control always terminates with exactly one result
 
 Model: `Conc/Model.lean` (`step`), threads = protocol thread, engine thread (root communicator `r`)
@@ -200,18 +200,25 @@ theorem no_deadlock_enabled {r : Fin n} {s : St n} (h : Reach r s) (v : Fin n) (
     ∃ e, Own r v e ∧ (step r s e).isSome = true :=
   thread_enabled (reach_G1 h) (reach_G5 h) v hv hnb hwin
 
-/-- **Proven part.** In a reachable state in which no thread can move and the protocol thread is not in the
-    middle of a request, the engine thread is idle in its main loop with every `go` answered and no request
-    pending, or it is in (or past) the quit-ack collection.
-    **Full statement (not yet proven):** the quit-ack collection (`eqwait`) cannot be stuck either.  Missing:
-    the QUIT / QUIT_ACK analogue of the debt invariant (`quitAckWaitChildren` = number of outstanding QUIT_ACKs). -/
-theorem no_deadlock_partial {r : Fin n} {s : St n} (h : Reach r s) (hall : ∀ v, s.alive v = true → Blocked s v)
+/-- If every thread is blocked, the engine thread is not inside the quit-ack collection loop either
+    (`quitAckWaitChildren` = number of outstanding QUIT_ACKs, invariant `G8`). -/
+theorem no_deadlock_quit {r : Fin n} {s : St n} (h : Reach r s) (hall : ∀ v, s.alive v = true → Blocked s v) :
+    s.pc r ≠ .eqwait :=
+  quit_not_stuck h hall
+
+/-- **No deadlock.**  In a reachable state in which no thread can move (every thread blocked in `Notifier::wait` with
+    its flag clear, or terminated, nothing pending) and the protocol thread is not in the middle of a request, the engine
+    thread is idle in its main loop with every `go` answered and no request pending, or it has terminated after `quit`.
+    Together with `no_deadlock_enabled` (a thread that is not blocked has an enabled step of its own): every reachable
+    non-final state has an enabled step of a non-waiting thread. -/
+theorem no_deadlock {r : Fin n} {s : St n} (h : Reach r s) (hall : ∀ v, s.alive v = true → Blocked s v)
     (hp : Out.notify r ∉ s.pOut) (hq : s.quitF.nxt = none) (hs : s.search.nxt = none) :
     (s.pc r = .ewait ∧ s.quitF.cur = false ∧ s.search.cur = false ∧ s.pend = false ∧ s.optsFin = true ∧ s.goCount = s.bmCount)
-    ∨ s.pc r = .eqwait ∨ s.pc r = .edone := by
+    ∨ s.pc r = .edone := by
   have h1 := reach_G1 h
   have hb := hall r h1.rootAlive
   have hne := collect_not_stuck h hall
+  have hnq := quit_not_stuck h hall
   rcases hb.2 with ⟨hw, hf⟩ | hd | hd | hd
   · cases hpc : s.pc r <;> simp [hpc, isWaitPc] at hw
     · have := (h1.pcKind r h1.rootAlive).2 rfl; rw [hpc] at this; cases this
@@ -219,9 +226,9 @@ theorem no_deadlock_partial {r : Fin n} {s : St n} (h : Reach r s) (hall : ∀ v
       have hi := no_lost_wakeup_mainloop h hpc hf hp hq hs
       exact ⟨rfl, hi.1, hi.2.1, hi.2.2.1, hi.2.2.2, idle_all_answered h hpc hf hp hq hs⟩
     · exact absurd hpc hne
-    · right; left; rfl
+    · exact absurd hpc hnq
   · have := (h1.pcKind r h1.rootAlive).2 rfl; rw [hd] at this; cases this
-  · right; right; exact hd
+  · right; exact hd
   · have := (h1.pcKind r h1.rootAlive).2 rfl; rw [hd] at this; cases this
 
 /-! ## the hypotheses are satisfiable: a concrete run -/
